@@ -92,12 +92,13 @@ def allBytes : T → List UInt8 → Nat × List (List UInt8)
 def prefixAll (t : T) (p : List UInt8) : Nat × List (List UInt8) :=
   allBytes (pfx t p) p
 
-/-- `autoCompleteCallback` (the returned line; terminal output not modelled):
+/-- `autoCompleteCallback(t, line, pos)` for `pos ≤ len(line)` (the returned line and cursor; terminal
+output not modelled): what is before the cursor is completed, what is after it is kept.
 `none` is the `ok=false` return. -/
-def complete (t : T) (typed : List UInt8) : Option (List UInt8 × Nat) :=
-  match prefixAll t typed with
+def complete (t : T) (line : List UInt8) (pos : Nat) : Option (List UInt8 × Nat) :=
+  match prefixAll t (line.take pos) with
   | (_, []) => none
-  | (l, c :: _) => some (c.take l, l)
+  | (l, c :: _) => some (c.take l ++ line.drop pos, l)
 
 def build (ws : List (List UInt8)) : T := ws.foldl insert empty
 
